@@ -490,6 +490,11 @@ let register (reg : string -> (Sx.t list -> Sx.t) -> unit) : unit =
         wr_bool (Authz.login_admits (Authz.email_valid (rd_list rd_str domains) (rd_list rd_str file)) (rd_list rd_str allowed)
                    { Authz.a_email = rd_str email; a_groups = rd_list rd_str groups })
       | _ -> raise (Bad "login_admits arity"));
+  (* ---- the configured code-challenge method ---- *)
+  reg "pkce_method" (function
+      | [m] -> Y (match Pkce.method_of_string (rd_str m) with
+          | Some Pkce.PkceNone -> "none" | Some Pkce.PkcePlain -> "plain" | Some Pkce.PkceS256 -> "s256" | None -> "refused")
+      | _ -> raise (Bad "pkce_method arity"));
   (* ---- which handler answers a liveness / readiness probe ---- *)
   reg "probe" (function
       | [pp; rp; pu; gcp; ok; path; ua] ->
